@@ -142,5 +142,17 @@ Definition shared_fields (published : list (string * list (string * path))) : na
                     | None => 0
                     end) server_fields).
 
+(* the message object itself: a tag held in the FEDWireMessage field G and the published member held in the
+   client model's field G (names compared without case) carry the same JSON name *)
+Definition msg_names_agree (except : list string) (server client : list (string * string)) : bool :=
+  forallb (fun gj => existsb (String.eqb (fst gj)) except ||
+                     match find (fun hk => String.eqb (fst hk) (fst gj)) client with
+                     | Some hk => String.eqb (snd hk) (snd gj)
+                     | None => true
+                     end) server.
+
+Definition shared_msg_names (server client : list (string * string)) : nat :=
+  length (filter (fun gj => existsb (fun hk => String.eqb (fst hk) (fst gj)) client) server).
+
 Definition disagreeing (published : list (string * list path)) : list string :=
   filter (fun n => negb (agrees_with published n)) (map fst server_paths).
